@@ -46,11 +46,19 @@ def classify_calls(an, f):
     for n in f.nodes.values():
         if n['k'] == 'decl':
             for v in n['v']:
-                if v.get('init') is not None and an.root_of_expr(f, v['init'], {}) == lvl and an.is_handle(f, v['d']):
-                    # level_iterator nxt = lvl; (advanced by ++nxt below)
+                if v.get('init') is not None and an.is_handle(f, v['d']):
+                    init = unwrap(v['init'])
                     incs = [m for m in f.nodes.values() if m['k'] == 'un' and m['op'] == '++' and unwrap(m['e'])['k'] == 'ref' and unwrap(m['e'])['d'] == v['d']]
-                    if len(incs) == 1:
-                        nxt = ('var', v['d'])
+                    if an.root_of_expr(f, init, {}) == lvl and init['k'] == 'ref':
+                        # level_iterator nxt = lvl; (advanced by ++nxt below)
+                        if len(incs) == 1:
+                            nxt = ('var', v['d'])
+                    elif init['k'] == 'call' and (init.get('f') or '').split('<')[0] in ('std::next',) and 1 <= len(init.get('a', [])) <= 2 and not incs \
+                            and an.root_of_expr(f, init['a'][0], {}) == lvl and (len(init['a']) == 1 or (unwrap(init['a'][1])['k'] == 'lit' and unwrap(init['a'][1])['v'] == '1')
+                                                                               or init['a'][1]['k'] == 'defarg'):
+                        nxt = ('var', v['d'])          # auto nxt = std::next(lvl);
+                    elif init['k'] == 'bin' and init['op'] == '+' and not incs and an.root_of_expr(f, init['x'], {}) == lvl and unwrap(init['y'])['k'] == 'lit' and unwrap(init['y'])['v'] == '1':
+                        nxt = ('var', v['d'])          # auto nxt = lvl + 1;
     for n in f.nodes.values():
         if n['k'] != 'call':
             continue
